@@ -19,7 +19,7 @@ def A(tag, mask, alg, elems=1, sub=15, nprom=1, state=0, parts=1):
         parts = 1
     return [{"name": "alg-%s-%s-e%d-s%d-p%d-%s-%dof%d" % (ALGS[alg], tag, elems, sub, nprom, STATES[state], part + 1, parts), "func": "VerifHarness_Algebra",
              "params": {"mask": mask, "elems": elems, "sub": sub, "nprom": nprom, "alg": alg, "state": state, "part": part, "parts": parts}, "unwind": 6000,
-             "reach": ["end"] if state == 3 else ["end", "nonempty"]} for part in range(parts)]
+             "reach": [] if sub & 16 else (["end"] if state == 3 else ["end", "nonempty"])} for part in range(parts)]
 
 
 def jobs(tier):
